@@ -14,6 +14,7 @@ from typing import (
     Dict,
     cast,
     Set,
+    FrozenSet,
 )
 
 import icontract._represent
@@ -656,7 +657,7 @@ def resolve_kwdefaults(sign: inspect.Signature) -> Dict[str, Any]:
 # The key refers to the id() of the function (preconditions and postconditions) or instance (invariants).
 _IN_PROGRESS = contextvars.ContextVar(
     "_IN_PROGRESS", default=None
-)  # type: contextvars.ContextVar[Optional[Set[int]]]
+)  # type: contextvars.ContextVar[Optional[FrozenSet[int]]]
 
 
 def decorate_with_checker(func: CallableT) -> CallableT:
@@ -724,14 +725,13 @@ def decorate_with_checker(func: CallableT) -> CallableT:
             if kwargs_error:
                 raise kwargs_error
 
-            # We need to create a new in-progress set if it is None as the ``ContextVar`` does not accept
-            # a factory function for the default argument. If we didn't do this, and simply set an empty
-            # set as the default, ``ContextVar`` would always point to the same set by copying the default
-            # by reference.
+            # The in-progress set is immutable: it is never changed in place, but replaced in the context variable
+            # and restored afterwards. A mutable set would be shared by reference among all the copies of
+            # the context (*e.g.*, asyncio tasks or threads started from a context which already ran a checker),
+            # so that concurrent callers would suspend each other's contract checks.
             in_progress = _IN_PROGRESS.get()
             if in_progress is None:
-                in_progress = set()
-                _IN_PROGRESS.set(in_progress)
+                in_progress = frozenset()
 
             # If the wrapper is already checking the contracts for the wrapped function, avoid a recursive loop
             # by skipping any subsequent contract checks for the same function.
@@ -743,7 +743,7 @@ def decorate_with_checker(func: CallableT) -> CallableT:
 
             # Use try-finally instead of ExitStack for performance.
             try:
-                in_progress.add(id_func)
+                _IN_PROGRESS.set(in_progress | {id_func})
 
                 (preconditions, snapshots, postconditions) = _unpack_pre_snap_posts(
                     wrapper
@@ -775,7 +775,7 @@ def decorate_with_checker(func: CallableT) -> CallableT:
                         snapshots=snapshots, resolved_kwargs=resolved_kwargs
                     )
             finally:
-                in_progress.discard(id_func)
+                _IN_PROGRESS.set(in_progress)
 
             # The contract checking is suspended only while the contracts of the function are being checked.
             # During the execution of the function itself, the calls to the function (*e.g.*, a recursion or
@@ -790,7 +790,7 @@ def decorate_with_checker(func: CallableT) -> CallableT:
                 return result
 
             try:
-                in_progress.add(id_func)
+                _IN_PROGRESS.set(in_progress | {id_func})
 
                 if postconditions:
                     resolved_kwargs["result"] = result
@@ -803,7 +803,7 @@ def decorate_with_checker(func: CallableT) -> CallableT:
 
                 return result
             finally:
-                in_progress.discard(id_func)
+                _IN_PROGRESS.set(in_progress)
 
     else:
 
@@ -813,14 +813,13 @@ def decorate_with_checker(func: CallableT) -> CallableT:
             if kwargs_error:
                 raise kwargs_error
 
-            # We need to create a new in-progress set if it is None as the ``ContextVar`` does not accept
-            # a factory function for the default argument. If we didn't do this, and simply set an empty
-            # set as the default, ``ContextVar`` would always point to the same set by copying the default
-            # by reference.
+            # The in-progress set is immutable: it is never changed in place, but replaced in the context variable
+            # and restored afterwards. A mutable set would be shared by reference among all the copies of
+            # the context (*e.g.*, asyncio tasks or threads started from a context which already ran a checker),
+            # so that concurrent callers would suspend each other's contract checks.
             in_progress = _IN_PROGRESS.get()
             if in_progress is None:
-                in_progress = set()
-                _IN_PROGRESS.set(in_progress)
+                in_progress = frozenset()
 
             # If the wrapper is already checking the contracts for the wrapped function, avoid a recursive loop
             # by skipping any subsequent contract checks for the same function.
@@ -832,7 +831,7 @@ def decorate_with_checker(func: CallableT) -> CallableT:
 
             # Use try-finally instead of ExitStack for performance.
             try:
-                in_progress.add(id_func)
+                _IN_PROGRESS.set(in_progress | {id_func})
 
                 (preconditions, snapshots, postconditions) = _unpack_pre_snap_posts(
                     wrapper
@@ -866,7 +865,7 @@ def decorate_with_checker(func: CallableT) -> CallableT:
                         snapshots=snapshots, resolved_kwargs=resolved_kwargs, func=func
                     )
             finally:
-                in_progress.discard(id_func)
+                _IN_PROGRESS.set(in_progress)
 
             # The contract checking is suspended only while the contracts of the function are being checked.
             # During the execution of the function itself, the calls to the function (*e.g.*, a recursion or
@@ -881,7 +880,7 @@ def decorate_with_checker(func: CallableT) -> CallableT:
                 return result
 
             try:
-                in_progress.add(id_func)
+                _IN_PROGRESS.set(in_progress | {id_func})
 
                 if postconditions:
                     resolved_kwargs["result"] = result
@@ -896,7 +895,7 @@ def decorate_with_checker(func: CallableT) -> CallableT:
 
                 return result
             finally:
-                in_progress.discard(id_func)
+                _IN_PROGRESS.set(in_progress)
 
     # Copy __doc__ and other properties so that doctests can run
     functools.update_wrapper(wrapper=wrapper, wrapped=func)
@@ -1081,14 +1080,13 @@ def _decorate_with_invariants(func: CallableT, is_init: bool) -> CallableT:
 
             # We need to disable the invariants check during the constructor.
 
-            # We need to create a new in-progress set if it is None as the ``ContextVar`` does not accept
-            # a factory function for the default argument. If we didn't do this, and simply set an empty
-            # set as the default, ``ContextVar`` would always point to the same set by copying the default
-            # by reference.
+            # The in-progress set is immutable: it is never changed in place, but replaced in the context variable
+            # and restored afterwards. A mutable set would be shared by reference among all the copies of
+            # the context (*e.g.*, asyncio tasks or threads started from a context which already ran a checker),
+            # so that concurrent callers would suspend each other's contract checks.
             in_progress = _IN_PROGRESS.get()
             if in_progress is None:
-                in_progress = set()
-                _IN_PROGRESS.set(in_progress)
+                in_progress = frozenset()
 
             id_instance = id(instance)
             if id_instance in in_progress:
@@ -1097,7 +1095,7 @@ def _decorate_with_invariants(func: CallableT, is_init: bool) -> CallableT:
                 # fully constructed, so the invariants are checked by the outermost constructor only.
                 return func(*args, **kwargs)
 
-            in_progress.add(id_instance)
+            _IN_PROGRESS.set(in_progress | {id_instance})
 
             # ExitStack is not used here due to performance.
             try:
@@ -1108,7 +1106,7 @@ def _decorate_with_invariants(func: CallableT, is_init: bool) -> CallableT:
 
                 return result
             finally:
-                in_progress.discard(id_instance)
+                _IN_PROGRESS.set(in_progress)
 
     else:
         # (mristin, 2021-02-16)
@@ -1144,20 +1142,19 @@ def _decorate_with_invariants(func: CallableT, is_init: bool) -> CallableT:
                     else instance.__class__.__invariants_on_call__
                 )
 
-                # We need to create a new in-progress set if it is None as the ``ContextVar`` does not accept
-                # a factory function for the default argument. If we didn't do this, and simply set an empty
-                # set as the default, ``ContextVar`` would always point to the same set by copying the default
-                # by reference.
+                # The in-progress set is immutable: it is never changed in place, but replaced in the context variable
+                # and restored afterwards. A mutable set would be shared by reference among all the copies of
+                # the context (*e.g.*, asyncio tasks or threads started from a context which already ran a checker),
+                # so that concurrent callers would suspend each other's contract checks.
                 in_progress = _IN_PROGRESS.get()
                 if in_progress is None:
-                    in_progress = set()
-                    _IN_PROGRESS.set(in_progress)
+                    in_progress = frozenset()
 
                 # The following dunder indicates whether another invariant is currently being checked. If so,
                 # we need to suspend any further invariant check to avoid endless recursion.
                 id_instance = id(instance)
                 if id_instance not in in_progress:
-                    in_progress.add(id_instance)
+                    _IN_PROGRESS.set(in_progress | {id_instance})
                 else:
                     # Do not check any invariants to avoid endless recursion.
                     return await func(*args, **kwargs)
@@ -1174,7 +1171,7 @@ def _decorate_with_invariants(func: CallableT, is_init: bool) -> CallableT:
 
                     return result
                 finally:
-                    in_progress.discard(id_instance)
+                    _IN_PROGRESS.set(in_progress)
 
         else:
 
@@ -1201,18 +1198,17 @@ def _decorate_with_invariants(func: CallableT, is_init: bool) -> CallableT:
                 # The following dunder indicates whether another invariant is currently being checked. If so,
                 # we need to suspend any further invariant check to avoid endless recursion.
 
-                # We need to create a new in-progress set if it is None as the ``ContextVar`` does not accept
-                # a factory function for the default argument. If we didn't do this, and simply set an empty
-                # set as the default, ``ContextVar`` would always point to the same set by copying the default
-                # by reference.
+                # The in-progress set is immutable: it is never changed in place, but replaced in the context variable
+                # and restored afterwards. A mutable set would be shared by reference among all the copies of
+                # the context (*e.g.*, asyncio tasks or threads started from a context which already ran a checker),
+                # so that concurrent callers would suspend each other's contract checks.
                 in_progress = _IN_PROGRESS.get()
                 if in_progress is None:
-                    in_progress = set()
-                    _IN_PROGRESS.set(in_progress)
+                    in_progress = frozenset()
 
                 id_instance = id(instance)
                 if id_instance not in in_progress:
-                    in_progress.add(id_instance)
+                    _IN_PROGRESS.set(in_progress | {id_instance})
                 else:
                     # Do not check any invariants to avoid endless recursion.
                     return func(*args, **kwargs)
@@ -1229,7 +1225,7 @@ def _decorate_with_invariants(func: CallableT, is_init: bool) -> CallableT:
 
                     return result
                 finally:
-                    in_progress.discard(id_instance)
+                    _IN_PROGRESS.set(in_progress)
 
     functools.update_wrapper(wrapper=wrapper, wrapped=func)
 
